@@ -3,6 +3,7 @@
 package main
 
 import (
+	"sort"
 	"encoding/json"
 	"fmt"
 	"mltwist/internal/consoleui/zzverifui"
@@ -66,6 +67,7 @@ type uiCase struct {
 	Indent int        `json:"indent"`
 	Width  int        `json:"width"`
 	Args   json.RawMessage `json:"args"`   // structured description of the argument tokens (echoed for the specification)
+	FillV  json.RawMessage `json:"fillv"`  // structured description of the line typed at value prompts (echoed)
 	Pat    string     `json:"pat"`         // find: the literal pattern the command searches for ("" otherwise)
 	MemStores []memStoreDesc `json:"memstores"` // memnew: constant stores building the memory
 	MemKind string    `json:"memkind"`     // memnew: sparse | bytes | overlay | nil
@@ -120,6 +122,12 @@ type uiEvent struct {
 	Shown   []int               `json:"shown"`  // render: indices of the lines printed
 	HasIP   bool                `json:"hasip"`  // emulate mode: the emulated instruction pointer is known
 	IPOff   int                 `json:"ipoff"`  // ... as offset from the code base (-1: outside 0..2^20)
+	EmuRegs []regKV             `json:"emuregs"` // emulate mode: the registers the emulator knows, sorted by key
+}
+
+type regKV struct {
+	Key string `json:"key"`
+	Val []int  `json:"val"`
 }
 
 // fmtLine is one wrapped line measured: leading tabs, length of the rest, lengths of its space separated pieces
@@ -154,6 +162,17 @@ func (u *uiSession) describe(ev *uiEvent) {
 		ev.IPOff = -1
 		if d := ip - u.base; d < 1<<20 {
 			ev.IPOff = int(d)
+		}
+	}
+	ev.EmuRegs = []regKV{}
+	if rs, ok := s.EmuRegs(); ok {
+		keys := make([]string, 0, len(rs))
+		for k := range rs {
+			keys = append(keys, k)
+		}
+		sort.Strings(keys)
+		for _, k := range keys {
+			ev.EmuRegs = append(ev.EmuRegs, regKV{Key: k, Val: ints(rs[k])})
 		}
 	}
 	ev.Listing, ev.Cursor, ev.HasList = s.Listing()
@@ -236,6 +255,9 @@ func init() {
 		if c.SepsT == nil {
 			c.SepsT = []int{}
 		}
+		if c.FillV == nil {
+			c.FillV = json.RawMessage(`{"kind":"str","v":0}`)
+		}
 		if c.Args == nil {
 			c.Args = json.RawMessage("[]")
 		}
@@ -246,7 +268,7 @@ func init() {
 		for _, w := range c.Text {
 			wl = append(wl, len(w))
 		}
-		ev := uiEvent{Shown: []int{}, WLens: wl, FmtLines: []fmtLine{}, Hits: []int{}, uiCase: c, Listing: []zzverifui.LineTok{}, Fresh: []zzverifui.LineTok{}, Proj: []blockDesc{}, EntryAt: []int{},
+		ev := uiEvent{Shown: []int{}, WLens: wl, FmtLines: []fmtLine{}, Hits: []int{}, uiCase: c, Listing: []zzverifui.LineTok{}, Fresh: []zzverifui.LineTok{}, Proj: []blockDesc{}, EntryAt: []int{}, EmuRegs: []regKV{},
 			MemRows: []zzverifui.MemRow{}, Val: []int{}, OutL: []string{}}
 		switch c.Op {
 		case "uinew":
